@@ -91,11 +91,8 @@ func (s *store) ingest(rng *rand.Rand) error {
 		Classes:  []string{"M", "MH", "MML"}[rng.Intn(3)],
 	}
 	s.hist = gen.Random(rng, rig.Genesis(), o)
-	// guaranteed material: a main chain of three, a fork off genesis, two orphan chains
+	// guaranteed material: a fork off genesis, two orphan chains (and below: a main chain of at least four)
 	g := rig.Genesis().HashOf()
-	a1 := hdr(g, gen.BitsHeavy, 900001)
-	a2 := hdr(a1.HashOf(), gen.BitsHeavy, 900002)
-	a3 := hdr(a2.HashOf(), gen.BitsHeavy, 900003)
 	f1 := hdr(g, gen.BitsLight, 900011)
 	f2 := hdr(f1.HashOf(), gen.BitsLight, 900012)
 	var u1, u2 refmodel.Hash
@@ -106,7 +103,7 @@ func (s *store) ingest(rng *rand.Rand) error {
 	o2 := hdr(o1.HashOf(), gen.BitsNormal, 900022)
 	p1 := hdr(u2, gen.BitsNormal, 900031)
 	p2 := hdr(p1.HashOf(), gen.BitsNormal, 900032)
-	s.hist.Hdrs = append(s.hist.Hdrs, a1, a2, a3, f1, f2, o1, o2, p1, p2)
+	s.hist.Hdrs = append(s.hist.Hdrs, f1, f2, o1, o2, p1, p2)
 	stored := 0
 	for _, h := range s.hist.Hdrs {
 		res := s.st.Add(h)
@@ -114,8 +111,32 @@ func (s *store) ingest(rng *rand.Rand) error {
 			stored++
 		}
 	}
+	for i := uint32(0); i < 8; i++ {
+		if err := s.readBack(); err != nil {
+			return err
+		}
+		if len(s.longest) >= 4 {
+			break
+		}
+		tip, ok := refmodel.ParseHash(s.tip)
+		if !ok {
+			return fmt.Errorf("tip hash %q unparsable", s.tip)
+		}
+		h := hdr(tip, gen.BitsHeavy, 900001+i)
+		s.hist.Hdrs = append(s.hist.Hdrs, h)
+		if s.st.Add(h).Code() == "stored" {
+			stored++
+		}
+	}
 	r.Count("headers_ingested", int64(stored))
-	return s.readBack()
+	if err := s.readBack(); err != nil {
+		return err
+	}
+	if len(s.longest) < 3 || len(s.stale) < 1 || len(s.orphan) < 2 || s.orphanRoot == "" || s.orphanRoot2 == "" ||
+		len(s.rootsLongest) < 1 || len(s.rootsStale) < 1 || len(s.rootsOrphan) < 1 {
+		return fmt.Errorf("store lacks material: longest=%d stale=%d orphan=%d", len(s.longest), len(s.stale), len(s.orphan))
+	}
+	return nil
 }
 
 func (s *store) readBack() error {
@@ -125,7 +146,7 @@ func (s *store) readBack() error {
 	}
 	s.state, s.rootState, s.rootHeight, s.byHeight = map[string]string{}, map[string]string{}, map[string]int64{}, map[int64]string{}
 	s.longest, s.stale, s.orphan, s.rootsLongest, s.rootsStale, s.rootsOrphan = nil, nil, nil, nil, nil, nil
-	s.tipHeight = -1
+	s.tipHeight, s.orphanRoot, s.orphanRoot2 = -1, "", ""
 	hashes := make([]string, 0, len(t))
 	for h := range t {
 		hashes = append(hashes, h)
@@ -188,9 +209,8 @@ func (s *store) readBack() error {
 			}
 		}
 	}
-	if s.genesis == "" || len(s.longest) < 3 || len(s.stale) < 1 || len(s.orphan) < 2 || s.orphanRoot == "" || s.orphanRoot2 == "" ||
-		len(s.rootsLongest) < 1 || len(s.rootsStale) < 1 || len(s.rootsOrphan) < 1 {
-		return fmt.Errorf("store lacks material: longest=%d stale=%d orphan=%d", len(s.longest), len(s.stale), len(s.orphan))
+	if s.genesis == "" || s.tip == "" {
+		return fmt.Errorf("store has no genesis / tip")
 	}
 	d, _, err := snap.TableDigest(s.st.DB, "headers")
 	s.digest = d
